@@ -165,7 +165,10 @@ def body(c):
         stats["early_returns"] += any(e["ev"] == "load" and e["fin"] for e in ev)
         stats["errors"] += any(d["err"] for e in ev for d in e["dels"])
         stats["cancels"] += any(e["ev"] == "cancel" for e in ev)
-        stats["skips"] += any(e["ev"] == "skip" for e in ev) and tr["src"] != "hostile"
+        if any(e["ev"] == "skip" for e in ev) and tr["src"] != "hostile":
+            stats["skips"] += 1   # a model behaviour whose command did not apply: only the unordered LRU fill may explain it
+            if not tr["conf"]["mode"].startswith("lru"):
+                c.drift("trace %s: a command of a model-generated schedule did not apply (mode %s)" % (tr["id"], tr["conf"]["mode"]))
         vd, at = verdicts[tr["id"]]
         c.verdict(vd, tr, "the property monitor rejected event %s (%s)" %
                   (at, json.dumps(ev[at - 1])[:300] if 0 < at <= len(ev) else "?"))
